@@ -47,6 +47,9 @@ func ecdsaVariant(v string) ecdsa.Variant {
 // moved forward (d, d+1, ...) until a public coordinate has a leading zero byte.
 func drawScalar(t *rapid.T, c elliptic.Curve) (d *big.Int, note string) {
 	size := sigref.ScalarSize(c)
+	if sc, ok := gen.SpecialECScalar(t, "scalar", size, 10); ok {
+		return new(big.Int).SetBytes(sc), "special-point-byte"
+	}
 	raw := gen.BytesN(t, "scalar", size)
 	if rapid.IntRange(0, 9).Draw(t, "lead0") == 0 {
 		z := rapid.IntRange(1, 3).Draw(t, "lead0_n")
